@@ -262,7 +262,11 @@ def _finditer_contract(it, fv, args, kwargs):
 
     it.assumed.append("contract:JSONPath.finditer == fold of resolve over the segments from the root node")
     m = root_match_term(it, path, data, fc, data)
-    return GenVal([("yieldfrom", apply_query_term(it, it.to_term(it.getattr(path, "selectors")), m))])
+    nodes = apply_query_term(it, it.to_term(it.getattr(path, "selectors")), m)
+    from contracts.common import match_facts
+
+    it.elem_facts = getattr(it, "elem_facts", []) + [(nodes, match_facts)]  # what a query yields are match records
+    return GenVal([("yieldfrom", nodes)])
 
 
 call_contract("jsonpath.path:JSONPath.finditer_async")(_finditer_contract)
@@ -275,7 +279,11 @@ def _query_nodes_contract(it, fv, args, kwargs):
 
 
     m = root_match_term(it, path, start, fc, root)
-    return GenVal([("yieldfrom", apply_query_term(it, it.to_term(it.getattr(path, "selectors")), m))])
+    nodes = apply_query_term(it, it.to_term(it.getattr(path, "selectors")), m)
+    from contracts.common import match_facts
+
+    it.elem_facts = getattr(it, "elem_facts", []) + [(nodes, match_facts)]
+    return GenVal([("yieldfrom", nodes)])
 
 
 def _path_setup(ctx, cls):
